@@ -59,6 +59,13 @@ Theorem C15_check_complete_partial :
   forall p, mono_prog p = true -> has_type p -> exists q, check_repaired p = COk q.
 Proof. exact check_complete_partial. Qed.
 Print Assumptions C15_check_complete_partial.
+(* The checker AS IT IS on a well-typed program of the fragment: it accepts, or it reports the single
+   error variant Undefined (T-002) - the instance-order defect is the only way such a program is
+   rejected. *)
+Theorem C15_check_undefined_only_partial : forall p, mono_prog p = true -> has_type p ->
+  (exists q, check p = COk q) \/ check p = CErr EUndefined.
+Proof. exact check_undefined_only_partial. Qed.
+Print Assumptions C15_check_undefined_only_partial.
 Theorem C15_check_repaired_exact_partial :
   forall p, mono_prog p = true -> (has_type p <-> exists q, check_repaired p = COk q).
 Proof. exact check_repaired_exact_partial. Qed.
